@@ -806,7 +806,10 @@ def translate(repo):
             raise TranslationError("T:numpy.py: np.zeros shape")
         return MockMat(shape[0])
 
-    def _to_numpy_array(graph, nodelist=None):
+    def _to_numpy_array(graph, nodelist=None, weight="weight"):
+        # the mock graph's edges are unweighted: weight="weight" (default 1 per edge) and weight=None give the same array
+        if weight not in ("weight", None):
+            raise TranslationError("T:numpy.py: nx.to_numpy_array weight=%r" % (weight,))
         if not isinstance(graph, MockLayer) or nodelist != graph.g.nodes_:
             raise TranslationError("T:numpy.py: nx.to_numpy_array must be called on a layer with nodelist=<the graph's node list>")
         return MockMat(len(nodelist), [[1 if (a != b and graph.has_edge(a, b)) else 0 for b in nodelist] for a in nodelist])
